@@ -182,6 +182,10 @@ func c14GenSpec(r *rand.Rand) (*execution.ParallelismSpec, string) {
 			default:
 				k = fmt.Sprintf("key-%d-%d", i, r.Intn(1000))
 			}
+			if r.Intn(8) == 0 {
+				// characters that mean something to template and regexp engines must arrive verbatim
+				k += []string{"$usd", "$1", "$$", "\\1", "$0x", "%s", "$"}[r.Intn(7)]
+			}
 			if seen[k] {
 				class = "keys-dup"
 			}
@@ -206,6 +210,9 @@ func c14GenSpec(r *rand.Rand) (*execution.ParallelismSpec, string) {
 				v := pool[r.Intn(len(pool))]
 				if r.Intn(3) > 0 {
 					v = fmt.Sprintf("%s%d", v, j)
+				}
+				if r.Intn(8) == 0 {
+					v += []string{"$usd", "$1", "$$", "\\1", "$0x", "%s", "$root"}[r.Intn(7)]
 				}
 				if seen[v] {
 					class = "matrix-dup"
@@ -386,10 +393,17 @@ func c14One(env *core.Env, res *core.Result, v *validation.Validator, caseIdx in
 	// 3. status slots: one per index, own hash, counts only own tasks.
 	job := &execution.Job{ObjectMeta: metav1.ObjectMeta{Name: "job", Namespace: "ns", UID: "job-uid"},
 		Spec: execution.JobSpec{Template: &execution.JobTemplate{Parallelism: spec, MaxAttempts: pointer.Int64(2),
-			TaskTemplate: execution.TaskTemplate{Pod: &execution.PodTemplateSpec{Spec: corev1.PodSpec{Containers: []corev1.Container{{
-				Name: "c", Image: "img",
-				Args: []string{"n=${task.index_num};k=${task.index_key};m=" + matrixTemplate(spec)},
-			}}}}}}}}
+			TaskTemplate: execution.TaskTemplate{Pod: &execution.PodTemplateSpec{Spec: corev1.PodSpec{
+				InitContainers: []corev1.Container{{
+					Name: "init", Image: "img",
+					Args: []string{"n=${task.index_num};k=${task.index_key};m=" + matrixTemplate(spec)},
+					Env:  []corev1.EnvVar{{Name: "IDX", Value: "${task.index_key}|${task.retry_index}"}},
+				}},
+				Containers: []corev1.Container{{
+					Name: "c", Image: "img",
+					Args: []string{"n=${task.index_num};k=${task.index_key};m=" + matrixTemplate(spec)},
+				}}}}}}}}
+	templateBefore := normJSON(job.Spec.Template)
 	r := rand.New(rand.NewSource(env.CaseSeed(caseIdx) ^ 0x14))
 	pick := r.Intn(len(got))
 	ts := metav1.NewTime(time.Unix(2000000000, 0))
@@ -451,6 +465,19 @@ func c14One(env *core.Env, res *core.Result, v *validation.Validator, caseIdx in
 		}
 		if gotArg := pod.Spec.Containers[0].Args[0]; gotArg != wantArg {
 			viol("pod-variables", "Pod for %s has args %q, expected %q", idxString(idx), gotArg, wantArg)
+			return
+		}
+		// every container of the Pod, init containers included, and whatever was built from the same Job before
+		if len(pod.Spec.InitContainers) != 1 || pod.Spec.InitContainers[0].Args[0] != wantArg {
+			viol("pod-variables-init-container", "Pod for %s (retry %d): init container has args %q, expected %q", idxString(idx), retry, pod.Spec.InitContainers[0].Args, wantArg)
+			return
+		}
+		if wantEnv := idx.IndexKey + "|" + strconv.FormatInt(retry, 10); pod.Spec.InitContainers[0].Env[0].Value != wantEnv {
+			viol("pod-variables-init-container", "Pod for %s (retry %d): init container env is %q, expected %q", idxString(idx), retry, pod.Spec.InitContainers[0].Env[0].Value, wantEnv)
+			return
+		}
+		if now := normJSON(job.Spec.Template); now != templateBefore {
+			viol("job-template-mutated", "building the Pod for %s changed the Job's own template: %s -> %s", idxString(idx), templateBefore, now)
 			return
 		}
 		h, _ := parallel.HashIndex(idx)
